@@ -353,4 +353,10 @@ example : ∀ op ∈ [Op.frame [.decrst 25, .sgr [[1]], .text "78", .osc8 "" "68
     simp [run, step, decMode]
   all_goals trivial
 
+-- other application output between lifecycle calls is admissible too: a title (OSC 2), the bell, an OSC 52 clipboard write
+example : frameTok (.other "1b5d323b7469746c65") = true ∧ frameTok (.other "07") = true ∧ frameTok (.other "1b5d35323b633b59513d3d") = true := by
+  decide +kernel
+-- … but not a sequence the mode terminal reacts to (keypad application mode, kitty keyboard push)
+example : frameTok (.other "1b3d") = false ∧ frameTok (.other "1b5b3e3175") = false := by decide +kernel
+
 end VaxisModel.Props.C04
